@@ -10,7 +10,15 @@ func init() {
 		Rule: "episodes with 1-4 consumer workers on one simulated distributed adapter (plain/priority), producers through a consumer's handle or a bare producer, consumers bound before or after items exist, notifications delayed/reordered/duplicated; non-trivial = >=2 consumers executed jobs or >=1 item was present at bind time; distinct = schedule/program hash",
 		Gen:   genC13,
 		Hook:  hookC13,
-		Judge: judgeC13,
+		Judge: func(j *judgeCtx) {
+			judgeC13(j)
+			if len(j.wd.consumers) == 0 && j.wd.cfg.Consumers <= 1 {
+				// a single consumer: an announced item must be pulled as soon as a slot is
+				// free, not only when a running job ends (gated quiescence, C03.b)
+				judgeConservation(j)
+			}
+		},
+		Owns: []string{"C03.b"},
 		NonTrivial: func(ep *Episode) bool {
 			seen := map[int]bool{}
 			for _, f := range ep.W.rec.fns {
